@@ -967,7 +967,45 @@ func (p *Prog) Method(q string) *types.Func {
 			return moved[0]
 		}
 	}
+	// renamed beyond recognition: found by the role it plays
+	if r, ok := roleMethods[q]; ok {
+		if m := r(p, n); m != nil {
+			p.fuzzy = append(p.fuzzy, q+" -> "+m.Name()+" (by role)")
+			return m
+		}
+	}
 	return nil
+}
+
+// roleMethods: methods found by their signature when their name is gone.
+var roleMethods = map[string]func(p *Prog, n *types.Named) *types.Func{
+	// the walk over the references of a subscription: the one method of Subscription that takes the collector's
+	// state and a visitor
+	"server.Subscription.traverse": func(p *Prog, n *types.Named) *types.Func {
+		gcT := p.Named("server.gcState")
+		if gcT == nil {
+			return nil
+		}
+		var hit *types.Func
+		for k := 0; k < n.NumMethods(); k++ {
+			m := n.Method(k)
+			sig, _ := m.Type().(*types.Signature)
+			if sig == nil || sig.Params().Len() != 2 {
+				continue
+			}
+			if !types.Identical(sig.Params().At(0).Type(), gcT) {
+				continue
+			}
+			if _, isFn := sig.Params().At(1).Type().Underlying().(*types.Signature); !isFn {
+				continue
+			}
+			if hit != nil {
+				return nil
+			}
+			hit = m
+		}
+		return hit
+	},
 }
 
 // PkgFunc looks up a package level function "pkg.Func".
